@@ -280,6 +280,31 @@ def mutate_proof(r, shapes):
     return shapes
 
 
+def closed_block_citation(r):
+    """A well-numbered proof in which a later step cites a line INSIDE an earlier, already closed
+    block (the cited line is earlier in the text but not visible); the citing rule would succeed."""
+    for _ in range(20):
+        shapes, _ = valid_proof(r, n=r.choice([3, 4, 5]))
+        flat = all_shapes(shapes)
+        blocks = [s_ for s_ in flat if s_.rule == 'subproof' and s_.sub]
+        if not blocks:
+            continue
+        blk = r.choice(blocks)
+        inner = [x for x in all_shapes(blk.sub) if x.rule not in ('', 'subproof')]
+        # steps after the block: later siblings (at any depth below them)
+        lvl = len(blk.id)
+        later = [x for x in flat if len(x.id) >= lvl and x.id[:lvl - 1] == blk.id[:lvl - 1] and x.id[lvl - 1] > blk.id[lvl - 1]
+                 and x.rule != 'subproof']
+        if not inner or not later:
+            continue
+        x = r.choice(later)
+        x.rule, x.args, x.prevs, x.th, x.sub = 'implies_intr', A, [r.choice(inner).id], None, None
+        return shapes
+    # fixed fallback
+    return [Shape((0,), 'subproof', sub=[Shape((0, 0), 'assume', A), Shape((0, 1), 'implies_intr', A, [(0, 0)])]),
+            Shape((1,), 'implies_intr', B, [(0, 0)])]
+
+
 def exhaustive_single():
     """All single-item proofs over a reduced alphabet."""
     res = []
@@ -333,6 +358,8 @@ def run_check(tier, seed):
         cases.append((sh, ng, 'valid'))
         for _ in range(2):
             cases.append((mutate_proof(r, sh), ng, 'mutated'))
+    for _ in range(80 if tier == 'quick' else 800):
+        cases.append((closed_block_citation(r), r.random() < 0.5, 'closed-block-citation'))
     # corpus: the design-phase defects
     corpus = [
         ([Shape((1,), 'substitution', Inst(), [(0,)], Thm(FALSE))], True, 'corpus:self-citation-by-position', 'C02:id-position'),
